@@ -37,6 +37,8 @@ JDK_SIMPLE = [b"11", b"11.0", b"11.0.8", b"1.8", b"17", b"1.8.0_292", b"21", b"1
 JDK_SIMPLE_RISKY = [b"11.0.7", b"1", b"1.8.0", b"17.0.1", b"2"]
 JDK_RANGES = [b"[1.8,)", b"[11,)", b"[1.8,11)", b"(,1.8]", b"[11,17)", b"[17,)", b"(,11]", b"[9,12)", b"[1.7,1.9)",
               b"(11,)", b"[21,)"]
+JDK_RANGES += [b"[11.0.8,)", b"(11.0.8,)", b"(,11.0.8]", b"(,11.0.8)", b"[17,17.0.2]", b"(,21)", b"(21,)", b"[17.0.2,17.0.3)"]
+JDK_NEGATED = [b"!1.8", b"!11", b"!17.0", b"!1", b"!21"]
 JDK_BAD = [b"[11,", b"[a,b,c]"]
 
 
@@ -67,6 +69,8 @@ class Knobs:
         self.missing_bom = 0.0
         self.bad_packaging = 0.02
         self.jdk_bad = 0.01
+        self.jdk_negated = 0.03
+        self.same_group = 0.3      # the root (a BOM) has the group of its parent and does not state it
         # per entry
         self.key_placeholder = 0.03
         self.prop_activation = 0.05
@@ -79,6 +83,7 @@ class LineageGen:
         self.k = knobs or Knobs()
         self.envs = envs or ENVS
         self.f = {}
+        self.has_parent = False
 
     def flag(self, name):
         return self.f.get(name, False)
@@ -94,8 +99,11 @@ class LineageGen:
         if q < 0.36:
             return b"${project.version}"
         if q < 0.39:
+            if root_world and self.has_parent:
+                return r.choice([b"${version}", b"${pom.version}", b"${project.parent.version}", b"${parent.version}",
+                                 b"${pom.parent.version}"])
             if root_world:
-                return r.choice([b"${version}", b"${pom.version}", b"${project.parent.version}", b"${parent.version}"])
+                return r.choice([b"${version}", b"${pom.version}"])
             return r.choice([b"${version}", b"${pom.version}"])
         if self.flag("unresolved") and q < 0.45:
             return b"${undefined.prop}"
@@ -111,7 +119,10 @@ class LineageGen:
             if ident(d) not in taken:
                 break
         if r.random() < self.k.key_placeholder:
-            d[0] = r.choice([b"${project.groupId}", b"${grp}", b"${groupId}"])
+            pool = [b"${project.groupId}", b"${grp}", b"${groupId}", b"${pom.groupId}"]
+            if root_world and self.has_parent:
+                pool += [b"${project.parent.groupId}", b"${parent.groupId}", b"${pom.parent.groupId}"] * 2
+            d[0] = r.choice(pool)
         d[2] = b"" if (managed_ok and r.random() < 0.25) else self.version_text(names, root_world)
         d[5] = r.choice([b""] * 6 + [b"compile", b"test", b"provided", b"runtime", b"test", b"${sc}"])
         if self.flag("empty_props"):
@@ -200,6 +211,8 @@ class LineageGen:
                 u = r.random()
                 if self.flag("jdk_bad") and u < 0.5:
                     act[1] = r.choice(JDK_BAD)
+                elif self.flag("jdk_negated") and u < 0.6:
+                    act[1] = r.choice(JDK_NEGATED)
                 elif self.flag("jdk_risky") and u < 0.6:
                     act[1] = r.choice(JDK_SIMPLE_RISKY)
                 elif u < 0.5:
@@ -248,7 +261,8 @@ class LineageGen:
                 d[5] = r.choice([b"", b"test"])
                 lst.insert(r.randrange(len(lst) + 1), d)
 
-    def gen_pom(self, g, a, v, parent, packaging, names, ndeps, nmgmt, nprops, imports=(), declare_gv=True, root_world=True):
+    def gen_pom(self, g, a, v, parent, packaging, names, ndeps, nmgmt, nprops, imports=(), declare_gv=True, root_world=True,
+                omit_group=False):
         r = self.rng
         deps = self.gen_list(names, ndeps, managed_ok=root_world, root_world=root_world)
         mgmt = self.gen_list(names, nmgmt, managed_ok=False, root_world=root_world)
@@ -268,6 +282,8 @@ class LineageGen:
                 pg = b""
             if parent[2] == v:
                 pv = b""
+        if omit_group and parent[0] == g:
+            pg = b""
         return [pg, a, pv, list(parent), packaging, props, deps, mgmt, profs]
 
     def import_entry(self, key, j):
@@ -299,7 +315,7 @@ class LineageGen:
         self.f = {name: r.random() < getattr(k, name) for name in
                   ("dup_in_list", "profile_same_key", "bom_two_versions", "bom_parent_builtin", "excl_placeholder",
                    "jdk_risky", "mgmt_dup", "unresolved", "unmanaged", "missing_bom", "bad_packaging", "jdk_bad",
-                   "empty_props")}
+                   "empty_props", "jdk_negated", "same_group")}
         env = list(r.choice(self.envs))
         names = list(PROP_NAMES)
         if r.random() < 0.25:
@@ -318,7 +334,7 @@ class LineageGen:
             bg, ba, bv = key
             parent = [b"", b"", b""]
             if r.random() < 0.5 or (self.flag("bom_parent_builtin") and j == 0):
-                parent = [b"bp", b"bpar%d" % j, r.choice([b"7", b"8"])]
+                parent = [bg if self.flag("same_group") and r.random() < 0.5 else b"bp", b"bpar%d" % j, r.choice([b"7", b"8"])]
                 pp = self.gen_pom(parent[0], parent[1], parent[2], [b"", b"", b""],
                                   b"jar" if (self.flag("bad_packaging") and r.random() < 0.3) else b"pom", names,
                                   0, r.choice([0, 1, 2]), r.choice([1, 2, 3]), root_world=False)
@@ -337,12 +353,15 @@ class LineageGen:
                 q[8] = []
                 extra.append(q)
             bp = self.gen_pom(bg, ba, bv, parent, b"pom", names, r.choice([0, 0, 1]), r.choice([1, 2, 3]), r.choice([0, 1, 2]),
-                              imports=imps, declare_gv=r.random() < 0.7, root_world=False)
+                              imports=imps, declare_gv=r.random() < 0.7, root_world=False, omit_group=self.flag("same_group"))
             if parent[0] and self.flag("bom_parent_builtin"):
                 bp[7].append(dep(b"g", b"y", r.choice([b"${project.parent.version}", b"${parent.version}"])))
             bom_poms.append(bp)
         # the root and its ancestors, top-most last
-        chain = [(b"r", b"root", b"1")] + [(b"p", b"par%d" % i, b"%d" % (i + 1)) for i in range(nanc)]
+        self.has_parent = nanc > 0
+        # with same_group the root has the group of its parent and inherits it
+        chain = [(b"p" if (self.flag("same_group") and nanc) else b"r", b"root", b"1")] + \
+                [(b"p", b"par%d" % i, b"%d" % (i + 1)) for i in range(nanc)]
         imports_of = {i: [] for i in range(len(chain))}
         for j, key in enumerate(boms):
             if r.random() < 0.8 or self.flag("bom_two_versions") or self.flag("bom_parent_builtin"):
@@ -359,7 +378,8 @@ class LineageGen:
             top = (i == len(chain) - 1)
             p = self.gen_pom(g, a, v, parent, packaging, names, r.choice([0, 1, 2, 3, 4] if i == 0 else [0, 0, 1, 2]),
                              r.choice([0, 1, 2, 3]), r.choice([0, 1, 2, 3]),
-                             imports=imports_of[i], declare_gv=r.random() < 0.6)
+                             imports=imports_of[i], declare_gv=r.random() < 0.6,
+                             omit_group=(i == 0 and self.flag("same_group")))
             if top:
                 self.base_props(p, names)        # base definitions, so that most references resolve
             lineage_poms.append(p)
@@ -423,9 +443,55 @@ def declared_key(p):
     return (p[0] or p[3][0], p[1], p[2] or p[3][2])
 
 
+def dotted(s, seps=b"."):
+    out = []
+    cur = b""
+    for c in s + seps[:1]:
+        if bytes([c]) in [seps[i:i + 1] for i in range(len(seps))]:
+            if not cur.isdigit():
+                return None
+            out.append(int(cur))
+            cur = b""
+        else:
+            cur += bytes([c])
+    return out
+
+
+def go_plain_rule(spec, jdk):
+    """what Profile.activated answers today for a plain <jdk> value (F-C15-6): active when the value is not above
+    the JDK version and differs from it at most from the third number on.  None: not a dotted number."""
+    a, b = dotted(spec), dotted(jdk, b"._-")
+    if a is None or b is None:
+        return None
+    n = max(len(a), len(b))
+    a, b = a + [0] * (n - len(a)), b + [0] * (n - len(b))
+    if a == b:
+        return 1
+    i = next(i for i in range(n) if a[i] != b[i])
+    if a[i] > b[i]:
+        return 0
+    return 0 if i < 2 else 1
+
+
+def matcher(d):
+    """(group, artifact) of an entry; a field that holds a placeholder matches anything"""
+    return (None if b"${" in d[0] else d[0], None if b"${" in d[1] else d[1])
+
+
+EVERYTHING = "*"
+
+
 def triggers(case, table):
-    """constructions present in the case on which the Go code is known to differ from Maven (known/C15.jsonl)"""
-    out = set()
+    """constructions present in the case on which the Go code is known to differ from Maven (known/C15.jsonl),
+    each with the dependency identities it can affect: a set of (group, artifact) matchers or EVERYTHING"""
+    out = {}
+
+    def add(name, what):
+        if what == EVERYTHING or out.get(name) == EVERYTHING:
+            out[name] = EVERYTHING
+        else:
+            out.setdefault(name, set()).update(what)
+
     poms = case[1]
     jdk = case[0][0]
     bykey = {}
@@ -440,17 +506,24 @@ def triggers(case, table):
         cur = bykey[tuple(cur[3])]
         root_line.append(id(cur))
     imports = {}
+    bom_world = set()
+    for p in poms:
+        if id(p) not in root_line:
+            for lst in [p[7]] + [pf[4] for pf in p[8]]:
+                bom_world.update(matcher(d) for d in lst)
     for p in poms:
         lists = [(p[6], p[7])] + [(pf[3], pf[4]) for pf in p[8]]
         for deps, mgmt in lists:
             ids = [ident(d) for d in deps]
-            if len(set(ids)) != len(ids):
-                out.add("dup_in_list")
+            dups = set(i for i in ids if ids.count(i) > 1)
+            if dups:
+                add("dup_in_list", [matcher(d) for d in deps if ident(d) in dups])
         own_d = set(ident(d) for d in p[6])
         own_m = set(ident(d) for d in p[7])
         for pf in p[8]:
-            if own_d & set(ident(d) for d in pf[3]) or own_m & set(ident(d) for d in pf[4]):
-                out.add("profile_same_key")
+            both = [d for d in pf[3] if ident(d) in own_d] + [d for d in pf[4] if ident(d) in own_m]
+            if both:
+                add("profile_same_key", [matcher(d) for d in both])
             own_d |= set(ident(d) for d in pf[3])
             own_m |= set(ident(d) for d in pf[4])
         for deps, mgmt in lists:
@@ -459,22 +532,47 @@ def triggers(case, table):
                     imports.setdefault((d[0], d[1]), set()).add(d[2])
             for d in deps + mgmt:
                 if any(b"${" in e[0] or b"${" in e[1] for e in d[7]):
-                    out.add("excl_placeholder")
+                    add("excl_placeholder", [matcher(d)])
         if id(p) not in root_line:
             txt = b" ".join(x for d in p[7] for x in d[:7]) + b" " + b" ".join(v for _, v in p[5])
             for pf in p[8]:
                 txt += b" " + b" ".join(x for d in pf[4] for x in d[:7]) + b" " + b" ".join(v for _, v in pf[2])
             if b"parent." in txt:
-                out.add("bom_parent_builtin")
+                add("bom_parent_builtin", bom_world)
         for pf in p[8]:
             s = pf[1][1]
-            if s and s[:1] not in (b"[", b"("):
-                want = (not is_prefix(s[1:], jdk)) if s[:1] == b"!" else is_prefix(s, jdk)
-                if table.get((s, jdk)) != (1 if want else 0):
-                    out.add("jdk_plain_value")
+            if not s or s[:1] in (b"[", b"("):
+                continue
+            got = table.get((s, jdk))
+            # what flips with this profile: its own content and that of the profiles active by default
+            flip = [pf] + [q for q in p[8] if q[1][0].lower() == b"true"]
+            what = EVERYTHING if any(q[2] for q in flip) else [matcher(d) for q in flip for d in q[3] + q[4]]
+            if s[:1] == b"!":
+                if got == 2:
+                    add("jdk_negated", EVERYTHING)      # the activation error ends the whole pipeline
+            else:
+                want = 1 if is_prefix(s, jdk) else 0
+                if got != want and got == go_plain_rule(s, jdk):
+                    add("jdk_plain_value", what)
     if any(len(v) > 1 for v in imports.values()):
-        out.add("bom_two_versions")
+        add("bom_two_versions", bom_world)
     return out
+
+
+def excused(trig, pa, pb):
+    """two projected results differ only in entries the known constructions of the lineage can affect: with those
+    identities taken out of both, what is left is the same, in the same order"""
+    if not trig:
+        return False
+    if any(v == EVERYTHING for v in trig.values()):
+        return True
+    if pa[0] != "ok" or pb[0] != "ok":
+        return False
+    ms = set().union(*trig.values())
+
+    def keep(e):
+        return not any((g is None or g == e[0]) and (a is None or a == e[1]) for g, a in ms)
+    return all([e for e in la if keep(e)] == [e for e in lb if keep(e)] for la, lb in ((pa[1], pb[1]), (pa[2], pb[2])))
 
 
 # ---------------------------------------------------------------------------- property tables
